@@ -157,7 +157,7 @@ func FormatNumber(value float64, picture string, format DecimalFormat) (string, 
 			exponent--
 		}
 
-		for value > maxMantissa {
+		for value >= maxMantissa {
 			value /= 10
 			exponent++
 		}
